@@ -124,19 +124,47 @@ EffectiveOffsetSec(tzsec, altsec, daylight, isdst) ==
 
 \* ---------------------------------------------------------------- C20
 \* t: [hh, mi, ss (each -1 = unspecified), dom, doy, dow, woy (0 = unspecified), zu, zh, zm]
-\* q read in zone (zh,zm) matches the truncated fields, lower time fields zero
+\* effective time fields: a specified hour zeroes unspecified minutes and seconds, a specified minute zeroes seconds
+TrH(t) == t.hh
+TrM(t) == IF t.mi >= 0 THEN t.mi ELSE IF t.hh >= 0 THEN 0 ELSE -1
+TrS(t) == IF t.ss >= 0 THEN t.ss ELSE IF t.hh >= 0 \/ t.mi >= 0 THEN 0 ELSE -1
 TruncHasTime(t) == t.hh >= 0 \/ t.mi >= 0 \/ t.ss >= 0
-TruncMatchLocal(m, t, loc) ==
-  LET day == loc[1]  sod == loc[2]
-      c == CalOf(m, day)  o == OrdOf(m, day)  w == WeekOf(m, day)
-      eh == t.hh
-      em == IF t.mi >= 0 THEN t.mi ELSE IF t.hh >= 0 THEN 0 ELSE -1
-      es == IF t.ss >= 0 THEN t.ss ELSE IF t.hh >= 0 \/ t.mi >= 0 THEN 0 ELSE -1
-  IN /\ (eh >= 0 => sod \div 3600 = eh)
-     /\ (em >= 0 => (sod % 3600) \div 60 = em)
-     /\ (es >= 0 => sod % 60 = es /\ loc[3] = 0)
-     /\ (t.dom > 0 => c[3] = t.dom)
-     /\ (t.doy > 0 => o[2] = t.doy)
-     /\ (t.dow > 0 => w[3] = t.dow)
-     /\ (t.woy > 0 => w[2] = t.woy)
+DayMatches(m, t, day) ==
+  /\ (t.dom > 0 => CalOf(m, day)[3] = t.dom)
+  /\ (t.doy > 0 => OrdOf(m, day)[2] = t.doy)
+  /\ (t.dow > 0 => Weekday(day) = t.dow)
+  /\ (t.woy > 0 => WeekOf(m, day)[2] = t.woy)
+TimeMatches(t, sod, us, psod) ==
+  IF ~TruncHasTime(t) THEN sod = psod                      \* no time field named: time of day unchanged
+  ELSE /\ us = 0
+       /\ (TrH(t) >= 0 => sod \div 3600 = TrH(t))
+       /\ (TrM(t) >= 0 => (sod % 3600) \div 60 = TrM(t))
+       /\ (TrS(t) >= 0 => sod % 60 = TrS(t))
+\* least matching second-of-day >= t0 (-1 if none on this day)
+LeastTime(t, t0, psod) ==
+  IF ~TruncHasTime(t) THEN (IF psod >= t0 THEN psod ELSE -1)
+  ELSE IF TrH(t) >= 0 THEN
+       LET x == TrH(t) * 3600 + TrM(t) * 60 + TrS(t) IN IF x >= t0 THEN x ELSE -1
+  ELSE IF TrM(t) >= 0 THEN
+       LET base == TrM(t) * 60 + TrS(t)
+           h == IF t0 <= base THEN 0 ELSE ((t0 - base) + 3599) \div 3600
+       IN IF h <= 23 THEN h * 3600 + base ELSE -1
+  ELSE LET mm == IF t0 <= TrS(t) THEN 0 ELSE ((t0 - TrS(t)) + 59) \div 60
+       IN IF mm <= 1439 THEN mm * 60 + TrS(t) ELSE -1
+\* p, q read in the zone in which t is to be read (t's own offset if it has one, else p's): local <<day, sod, us>>
+InZone(m, x, zh, zm) == Norm3(<<LocalDay(m, x), x.sod - ZoneSec(x.zh, x.zm) + ZoneSec(zh, zm), x.us>>)
+AddTruncClause(m, t, p, q) ==
+  LET zh == IF t.zu THEN p.zh ELSE t.zh   zm == IF t.zu THEN p.zm ELSE t.zm
+      lp == InZone(m, p, zh, zm)   lq == InZone(m, q, zh, zm)
+  IN
+  IF ~ValidTP(m, q) THEN "result-invalid"
+  ELSE IF ~SameZone(p, q) THEN "offset-not-p's"
+  ELSE IF ~DayMatches(m, t, lq[1]) THEN "day-designator-not-matched"
+  ELSE IF ~TimeMatches(t, lq[2], lq[3], lp[2]) THEN "time-fields-not-matched"
+  ELSE IF Lt3(lq, lp) THEN "earlier-than-p"
+  \* leastness: no matching day strictly between; on p's own day no matching time >= p; on q's day the least time
+  ELSE IF \E d \in (lp[1] + 1)..(lq[1] - 1) : DayMatches(m, t, d) THEN "earlier-matching-day-exists"
+  ELSE IF lq[1] > lp[1] /\ DayMatches(m, t, lp[1]) /\ LeastTime(t, lp[2] + (IF lp[3] > 0 THEN 1 ELSE 0), lp[2]) >= 0 THEN "earlier-match-on-p's-day"
+  ELSE IF lq[2] # LeastTime(t, IF lq[1] = lp[1] THEN lp[2] ELSE 0, lp[2]) THEN "not-the-earliest-time-of-day"
+  ELSE "ok"
 =============================================================================
